@@ -17,7 +17,7 @@ func init() {
 	register(&Prop{
 		ID:         "C10",
 		Title:      "Attribute values survive a write/read round trip unchanged",
-		Decided:    "every conversion on the write/read path is total over the ten attribute types and discriminates by presence, not by emptiness: (R1) the v2 SDK→internal conversion has a case for every implementer of the SDK's AttributeValue union (enumerated from the SDK package through go/types) and maps member X to field X; (R2) the v2 internal→SDK conversion and the interpreter's MapToObject have a branch per field of types.Item whose presence test is `F != nil`, never `len(F) != 0` (an empty list, map or binary is a value; for the three set types emptiness tests are accepted because DynamoDB has no empty sets); (R3) the four v1 conversions set all ten fields, each from the same-named source field; (R4) each interpreter object's ToDynamoDB sets exactly the field named like the type tag its Type() returns; (R5) the item-copy helpers and the interpreter's working copies copy every entry unconditionally; (R6) every S and N text stored into any of the three representations, in either direction of either client, comes from the same-named slot through pointer copies only – no call that could trim, format or parse it (the value-origin tracer looks into package-local helpers and treats only the SDK pointer helpers as transparent); (R7) the internal representation encodes the type in which field is non-nil: in every data object's ToDynamoDB and in every member case of the SDK v2 → internal conversions the type-carrying field is provably non-nil (must-non-nil analysis over make/literal/append/phis/helper returns/field invariants), also for the empty string, binary, list and map (sets cannot be empty and are left out); (R8) the key derivation is lossless (= C01.R8): an item written under one number key is not silently replaced by a write to a different number; (R9) the value read back is the value that was written only if neither the stored value nor an earlier read result shares memory with a buffer somebody else can still change: every reference-typed component of every conversion result is owned by the result (= C14.R1); (R10) in the attribute→object conversion the object built under the presence test of field F carries the tag F (case chains and (predicate, constructor) tables alike) – with R4 (an object of tag F is written back as field F) a value keeps its type through the expression engine; (R11) every container conversion / copy helper of the adapters returns nil only under arg == nil: an empty map, list, binary or set stays present; (R12) a write that is rejected has not replaced the stored value (= C08.R1).",
+		Decided:    "every conversion on the write/read path is total over the ten attribute types and discriminates by presence, not by emptiness: (R1) the v2 SDK→internal conversion has a case for every implementer of the SDK's AttributeValue union (enumerated from the SDK package through go/types) and maps member X to field X; (R2) the v2 internal→SDK conversion and the interpreter's MapToObject have a branch per field of types.Item whose presence test is `F != nil`, never `len(F) != 0` (an empty list, map or binary is a value; for the three set types emptiness tests are accepted because DynamoDB has no empty sets); (R3) the four v1 conversions set all ten fields, each from the same-named source field; (R4) each interpreter object's ToDynamoDB sets exactly the field named like the type tag its Type() returns; (R5) the item-copy helpers and the interpreter's working copies copy every entry unconditionally; (R6) every S and N text stored into any of the three representations, in either direction of either client, comes from the same-named slot through pointer copies only – no call that could trim, format or parse it (the value-origin tracer looks into package-local helpers and treats only the SDK pointer helpers as transparent); (R7) the internal representation encodes the type in which field is non-nil: in every data object's ToDynamoDB and in every member case of the SDK v2 → internal conversions the type-carrying field is provably non-nil (must-non-nil analysis over make/literal/append/phis/helper returns/field invariants), also for the empty string, binary, list and map (sets cannot be empty and are left out); (R8) the key derivation is lossless (= C01.R8): an item written under one number key is not silently replaced by a write to a different number; (R9) the value read back is the value that was written only if neither the stored value nor an earlier read result shares memory with a buffer somebody else can still change: every reference-typed component of every conversion result is owned by the result (= C14.R1); (R10) in the attribute→object conversion the object built under the presence test of field F carries the tag F (case chains and (predicate, constructor) tables alike) – with R4 (an object of tag F is written back as field F) a value keeps its type through the expression engine; (R11) every container conversion / copy helper of the adapters returns nil only under arg == nil: an empty map, list, binary or set stays present; (R12) a write that is rejected has not replaced the stored value (= C08.R1); (R13) the search path modifies no item map it did not build (= C02.R15); (R14) outside the expression language no numeral is parsed to or formatted from a float (= C12.R1 restricted to v1/v2/core/interp).",
 		NotDecided: "numeric notation and precision (C12), set/element equality, nesting depth, and fidelity of values inside each branch (value-level).",
 		Rules: []RuleDef{
 			{ID: "R1", Desc: "v2 SDK→internal: exhaustive over the SDK union, member X ↦ field X (T-TABLE)", Run: c10R1},
@@ -32,6 +32,8 @@ func init() {
 			{ID: "R9", Desc: "what is stored and what is handed out are copies: reference components of every conversion are owned by the result (= C14.R1)", Run: aliasRule("R9", c14R1, nil)},
 			{ID: "R11", Desc: "container conversions and copy helpers of the adapters answer nil only for a nil argument, never for an empty one (presence is nil-ness) (T-GUARD)", Run: c10R11},
 			{ID: "R12", Desc: "what a read returns is what the last SUCCESSFUL write stored: a rejected write leaves the stored value untouched (= C08.R1)", Run: aliasRule("R12", c08R1, nil)},
+			{ID: "R13", Desc: "a read returns the stored attributes: nothing on the search path strips or rewrites an item it did not build (= C02.R15)", Run: aliasRule("R13", c02R15, nil)},
+			{ID: "R14", Desc: "no conversion on the adapters' or the engine's path passes a number through binary floating point (= C12.R1 outside the expression language): members of a number set that differ beyond 53 bits stay distinct", Run: c10R14},
 		},
 	})
 }
@@ -946,5 +948,26 @@ func c10R11(e *Engine) {
 	}
 	if n < 4 {
 		e.fail("R11", "count:R11", "-", "only %d nil-returning container conversions found", n)
+	}
+}
+
+// c10R14: C12.R1's census of numeral <-> float conversions, restricted to everything outside the expression language
+// (where float64 numbers are the recorded finding): adapters, engine and interpreter wiring convert no numeral.
+func c10R14(e *Engine) {
+	before := len(e.obs)
+	c12R1(e)
+	kept := e.obs[:before]
+	n := 0
+	for _, o := range e.obs[before:] {
+		c := o.Construct
+		if strings.HasPrefix(c, "v1:") || strings.HasPrefix(c, "v2:") || strings.HasPrefix(c, "core:") || strings.HasPrefix(c, "interp:") || strings.HasPrefix(c, "v1.") || strings.HasPrefix(c, "v2.") || strings.HasPrefix(c, "core.") || strings.HasPrefix(c, "interp.") {
+			o.Rule = "R14"
+			kept = append(kept, o)
+			n++
+		}
+	}
+	e.obs = kept
+	if n == 0 {
+		e.pass("R14", "no-float-outside-the-expression-language", "-", "no numeral is parsed to, formatted from or rounded through a float in the adapters, the engine or the interpreter wiring")
 	}
 }
